@@ -7,6 +7,7 @@ import (
 	"path/filepath"
 	"sort"
 	"strings"
+	"time"
 
 	"verif/harness/mk"
 	"verif/harness/model"
@@ -248,6 +249,25 @@ func SplitsAfter(n int) int {
 		return 0
 	}
 	return 1 + (n-9)/4
+}
+
+// ExecWatched runs one statement under a watchdog. A statement that does not
+// return cannot be abandoned (its goroutine holds locks and the store), so the
+// case is reported as it is and this worker ends - no shrinking.
+func ExecWatched(eng *mk.Engine, s model.Stmt, limit time.Duration, st *vlib.Stats, id string, caseJSON []byte, what string) error {
+	done := make(chan error, 1)
+	go func() { done <- eng.ExecStmt(s) }()
+	select {
+	case err := <-done:
+		return err
+	case <-time.After(limit):
+		msg := fmt.Sprintf("%s did not return within %s: %s", what, limit, s)
+		st.Fail(msg, caseJSON)
+		st.Write(Cfg, id)
+		vlib.Logf("FAIL %s: %s", id, msg)
+		os.Exit(1)
+	}
+	return nil
 }
 
 func init() {
